@@ -20,7 +20,7 @@ RULE = ('cases: PyRt.last_day vs calendar.monthrange for every month of 1900..21
         'instants, inside and outside the effective period; timer-driven multi-day runs of real objects under the virtual clock '
         '(TZ=UTC) including effective-period entry and exit.  non-trivial = a mask with a set and a clear bit, an evaluation that '
         'is inside the effective period with at least one entry in force, a run with >= 3 firings; distinct by (operation, input).')
-TRUSTED = ['model coq/theories/ScheduleEval.v written by hand after local/schedule.py:196-227,428-583 (tie = correspondence); '
+TRUSTED = ['model coq/theories/ScheduleEval.v written by hand after local/schedule.py:216-247,448-603 (line numbers of the fixed worktree) (tie = correspondence); '
            'gen/ScheduleFns.v is the AST translation of match_date/match_date_range/match_weeknday (theorems are about that text)',
            'time.mktime/time.localtime under TZ=UTC, datetime.date (used as the calendar oracle for day-of-week and month lengths)',
            'the direct interpreter `spec_eval` in harness/props/c20.py (independent reading of clause 12.24.4)']
